@@ -1,7 +1,7 @@
 """C02 -- every defined position is encoded at, and parsed from, its own index."""
 from .. import tables, versions
 from ..src import SourceIndex
-from . import tablerules, codelemmas
+from . import tablerules, codelemmas, forwarding
 from .. import ctx as ctxmod
 
 
@@ -20,6 +20,9 @@ def run(chk):
     codelemmas.ordinal_naming(chk, c, 'C02-K2')
     codelemmas.open_ended(chk, c, 'C02-K3')
     codelemmas.separators(chk, c, 'C02-K4')
+    chk.rule('C02-K5', 'the element\'s own HL7 version is passed to every table lookup / datatype test on the build, encode and parse paths')
+    forwarding.check_forwarding(chk, c, 'C02-K5', ('version',), check_own=True,
+                                only_callers=lambda fq: fq.split('.')[0] in ('core', 'parser', 'factories'))
     chk.exhaustive = True
     chk.assume('table modules contain only literals, cross references and the two recognised fix-up loops '
                '(checked: anything else ends the run as ANALYSIS-ERROR)')
